@@ -304,6 +304,56 @@ class Index(object):
                     raise AnalysisError("cannot parse {}: {}".format(rel, e))
         for m in self.modules.values():
             self._index_module(m)
+        if os.environ.get("CDD_SA_NO_KWNORM") != "1":
+            self._normalise_keyword_calls()
+
+    def _normalise_keyword_calls(self):
+        """
+        One spelling for the arguments of calls to the package's own plain functions: a keyword that names the
+        callee's next positional parameter is read as that positional argument (`f(a, y=b)` as `f(a, b)` for
+        `def f(x, y)`), repeatedly, so that the rules see `get_value(node=n)` and `get_value(n)` alike. Only for
+        callees that resolve to an undecorated function of the package without *args; keyword-only parameters and
+        keywords beyond a gap stay keywords. Evaluation order is irrelevant to the analysis.
+        """
+        n = 0
+
+        def fix(m, call, func):
+            nonlocal n
+            if not call.keywords or any(isinstance(a, ast.Starred) for a in call.args) or any(k.arg is None for k in call.keywords):
+                return
+            h = self.funcs.get(self.resolve(m, call.func, func) or "")
+            if h is None or h.node.decorator_list or h.node.args.vararg is not None:
+                return
+            pos = [a.arg for a in h.node.args.posonlyargs + h.node.args.args]
+            if h.cls is not None:
+                return  # bound / unbound method calls: the receiver shifts the positions
+            while len(call.args) < len(pos):
+                want = pos[len(call.args)]
+                k = next((k for k in call.keywords if k.arg == want), None)
+                if k is None:
+                    break
+                call.keywords.remove(k)
+                call.args.append(k.value)
+                m.parents[k.value] = call
+                n += 1
+
+        for f in list(self.funcs.values()):
+            for x in iter_own(f.node):
+                if isinstance(x, ast.Call):
+                    fix(f.mod, x, f)
+        for m in self.modules.values():
+            stack = list(m.tree.body)
+            while stack:
+                x = stack.pop()
+                if isinstance(x, (ast.FunctionDef, ast.AsyncFunctionDef, ast.Lambda)):
+                    # defaults and decorators are evaluated at module level
+                    stack.extend(x.decorator_list if not isinstance(x, ast.Lambda) else [])
+                    stack.extend(d for d in x.args.defaults + x.args.kw_defaults if d is not None)
+                    continue
+                if isinstance(x, ast.Call):
+                    fix(m, x, None)
+                stack.extend(ast.iter_child_nodes(x))
+        self.keyword_calls_normalised = n
 
     # ------------------------------------------------------------------ build
     def _index_module(self, m):
@@ -548,6 +598,24 @@ class Index(object):
     def callee(self, m, call, func=None):
         """canonical name of the callee of a Call node (or None)"""
         return self.resolve(m, call.func, func)
+
+    def bound_args(self, m, call, func=None):
+        """
+        {parameter name: argument expression} of a call whose callee resolves to a function of the package — by
+        position and by keyword alike; keywords only when the callee is unknown. Starred arguments stop the
+        positional binding.
+        """
+        out = {k.arg: k.value for k in call.keywords if k.arg}
+        h = self.funcs.get(self.resolve(m, call.func, func) or "")
+        if h is not None:
+            pos = [a.arg for a in h.node.args.posonlyargs + h.node.args.args]
+            if h.cls is not None and pos and isinstance(call.func, ast.Attribute):
+                pos = pos[1:]
+            for i, a in enumerate(call.args):
+                if isinstance(a, ast.Starred) or i >= len(pos):
+                    break
+                out.setdefault(pos[i], a)
+        return out
 
     def module_var(self, dotted):
         """(Mod, [assign stmts]) for `cdd.x.y.NAME` if it is a module-level variable"""
